@@ -7,7 +7,9 @@ import re
 from tiv import rex
 from tiv.astutil import (guards, assigned_targets, body_walk, call_name, dotted, enclosing_stmt, norm, short, stores_in,
                          walk_local)
+from tiv.match import find_stmts, match_expr
 from tiv.mutate import M
+from tiv.sem import expand, trace, cx, specialize
 from tiv.srcmodel import AnalysisError
 
 RULES = {
@@ -40,11 +42,16 @@ INTERNAL_STYLE_PARAMS = {"frame", "blend", "split_cells"}
 def _regex_literals(m, rel):
     """{name: (pattern, flags)} for module-level `NAME = re.compile(<literal>, <flags>)`."""
     out = {}
+    from tiv.constfold import Folder, UNKNOWN
+    fold = Folder(m.tree(rel))
     for st in m.tree(rel).body:
         if isinstance(st, ast.Assign) and isinstance(st.value, ast.Call) and call_name(st.value) == "re.compile" and st.value.args:
             pat = st.value.args[0]
             if not (isinstance(pat, ast.Constant) and isinstance(pat.value, str)):
-                continue
+                v = fold.eval(pat)            # patterns assembled from module-level string constants
+                if v is UNKNOWN or not isinstance(v, str):
+                    continue
+                pat = ast.Constant(value=v)
             flags = 0
             for a in st.value.args[1:] + [k.value for k in st.value.keywords]:
                 for n in ast.walk(a):
@@ -120,39 +127,69 @@ def run(ck, m):
     # ---- R2 ----------------------------------------------------------------------------
     pat, flags, fs_stmt = lits["_FORMAT_SPEC"]
     groups, ngroups = rex.group_subpatterns(pat, flags)
-    unpack = None
-    for st in cfs.body:
-        if isinstance(st, ast.Assign) and isinstance(st.value, ast.Call) and norm(st.value).endswith(".groups()") and isinstance(st.targets[0], ast.Tuple):
-            unpack = st
-    ck.need(unpack is not None, "tuple unpacking of match_.groups() not found in _check_format_spec")
-    targets = [norm(e) for e in unpack.targets[0].elts]
-    ck.ob("R2", unpack, len(targets) == ngroups, f"_FORMAT_SPEC has {ngroups} groups but the unpacking has {len(targets)} targets", stmt="groups == unpack arity")
-    for i, tname in enumerate(targets, 1):
-        if tname in FIELD_LANG and i in groups:
+    # which group feeds which use: every use is traced back to the match object and the group references are put in one form
+    # (`m.groups()[i]` / `m.group(k)` / `m.group(a, b)[i]` / `m[k]`  ->  Gk), then compared case by case.
+    FIELD_BY_GROUP = {2: "h_align", 3: "width", 5: "v_align", 6: "height", 7: "alpha", 8: "threshold_or_bg", 10: "style_spec"}
+    ck.ob("R2", fs_stmt, ngroups == 10, f"_FORMAT_SPEC has {ngroups} groups; the parser relies on 10", stmt="_FORMAT_SPEC: 10 groups")
+    for i, tname in FIELD_BY_GROUP.items():
+        if i in groups:
             got = rex.lang_of_items(*groups[i])
             exp = rex.compile_pattern(FIELD_LANG[tname], re.ASCII)
             w, _ = rex.decide([got, exp], lambda b: b[0] != b[1], limit=3)
-            ck.ob("R2", fs_stmt, not w, f"group {i}, unpacked as `{tname}`, does not have the field's language; differs on {w!r}", stmt=f"group {i} -> {tname}")
-    ck.expect(sum(1 for t in targets if t in FIELD_LANG) >= 7, "fewer than 7 named fields unpacked in _check_format_spec")
-    # defaults of absent fields: recognised idiom `X(field) if field else <default>`; an unrecognised idiom is an
-    # analysis error (exit 2), a recognised one with another default is a violation.
-    ifexps = {}
-    for n in body_walk(cfs):
-        if isinstance(n, ast.IfExp) and isinstance(n.test, ast.Name):
-            ifexps.setdefault(n.test.id, n)
-    for fld, dflt in (("width", "0"), ("height", "-2")):
-        ie = ifexps.get(fld)
-        ck.expect(ie is not None, f"_check_format_spec: default idiom `int({fld}) if {fld} else <default>` not recognised")
-        if ie is not None:
-            ck.ob("R2", enclosing_stmt(ie), norm(ie.orelse) == dflt and norm(ie.body) == f"int({fld})",
-                  f"absent {fld} must default to {dflt} (terminal-relative) and a present one to int({fld}); found `{norm(ie)}`", stmt=f"default {fld}")
-    ie = ifexps.get("alpha")
-    ck.expect(ie is not None, "_check_format_spec: `<...> if alpha else _ALPHA_THRESHOLD` idiom not recognised")
-    if ie is not None:
-        ck.ob("R2", enclosing_stmt(ie), norm(ie.orelse) == "_ALPHA_THRESHOLD", f"absent '#' must default to _ALPHA_THRESHOLD; found `{norm(ie.orelse)}`", stmt="default alpha")
-        b = ie.body
-        str_guard = isinstance(b, ast.BoolOp) and isinstance(b.op, ast.And) and isinstance(b.values[0], ast.Name) and b.values[0].id in targets
-        ck.expect(str_guard, "_check_format_spec: bare-'#' idiom `<str field> and (...)` not recognised")
+            ck.ob("R2", fs_stmt, not w, f"group {i} (the `{tname}` field) does not have the field's language; differs on {w!r}", stmt=f"group {i} -> {tname}")
+
+    def G(e):
+        """traced expression with group references canonicalised to names G1..G10"""
+        class T(ast.NodeTransformer):
+            def visit_Subscript(t, n):
+                t.generic_visit(n)
+                v, sl = n.value, n.slice
+                if isinstance(sl, ast.Constant) and isinstance(sl.value, int) and isinstance(v, ast.Call) and isinstance(v.func, ast.Attribute) and "fullmatch(spec)" in norm(v.func.value):
+                    if v.func.attr == "groups" and not v.args:
+                        return ast.Name(id=f"G{sl.value + 1}", ctx=ast.Load())
+                    if v.func.attr == "group" and len(v.args) > sl.value >= 0 and all(isinstance(a_, ast.Constant) for a_ in v.args):
+                        return ast.Name(id=f"G{v.args[sl.value].value}", ctx=ast.Load())
+                if isinstance(sl, ast.Constant) and isinstance(sl.value, int) and "fullmatch(spec)" in norm(v) and norm(v).endswith("fullmatch(spec)"):
+                    return ast.Name(id=f"G{sl.value}", ctx=ast.Load())
+                return n
+
+            def visit_Call(t, n):
+                t.generic_visit(n)
+                if isinstance(n.func, ast.Attribute) and n.func.attr == "group" and len(n.args) == 1 and isinstance(n.args[0], ast.Constant) and norm(n.func.value).endswith("fullmatch(spec)"):
+                    return ast.Name(id=f"G{n.args[0].value}", ctx=ast.Load())
+                return n
+        return T().visit(trace(cfs, e))
+
+    def CX(src):
+        return cx(ast.parse(src, mode="eval").body)
+    cfc = [c for c in body_walk(cfs) if isinstance(c, ast.Call) and norm(c.func).endswith("._check_formatting") and len(c.args) == 4]
+    ck.expect(len(cfc) == 1, "_check_format_spec: the `cls._check_formatting(h_align, width, v_align, height)` call not recognised")
+    if len(cfc) == 1:
+        a0, a1, a2, a3 = [G(a_) for a_ in cfc[0].args]
+        ck.ob("R2", enclosing_stmt(cfc[0]), cx(a0) == CX("G2") and cx(a2) == CX("G5"), f"the alignments must come from groups 2 and 5; found `{norm(a0)[:50]}`, `{norm(a2)[:50]}`", stmt="h_align <- group 2, v_align <- group 5")
+        for nm_, a_, g_, dflt in (("width", a1, "G3", "0"), ("height", a3, "G6", "-2")):
+            ck.ob("R2", enclosing_stmt(cfc[0]), cx(a_) == CX(f"int({g_}) if {g_} else {dflt}"),
+                  f"absent {nm_} must default to {dflt} (terminal-relative) and a present one to int(<{nm_} group>); found `{norm(a_)[:90]}`", stmt=f"default {nm_}")
+    rets = [r for r in body_walk(cfs) if isinstance(r, ast.Return) and isinstance(r.value, ast.Tuple) and len(r.value.elts) >= 3]
+    ck.expect(len(rets) == 1, "_check_format_spec: `return (*formatting, alpha, style_args)` not recognised")
+    if len(rets) == 1:
+        alpha_e, style_e = G(rets[0].value.elts[-2]), G(rets[0].value.elts[-1])
+        BG = "'#' + G8.lstrip('#')"
+        for facts, want, why in (
+                ({"G7": False}, "_ALPHA_THRESHOLD", "absent '#' must default to _ALPHA_THRESHOLD"),
+                ({"G7": True, "G8": False}, "G8", "a bare '#' (no threshold/colour) must pass the empty group on (transparency disabled)"),
+                ({"G7": True, "G8": True, f"_ALPHA_BG_FORMAT.fullmatch({BG})": True}, BG, "a colour must be normalised to '#' + hex"),
+                ({"G7": True, "G8": True, f"_ALPHA_BG_FORMAT.fullmatch({BG})": False}, "float(G8)", "a threshold must be parsed as float")):
+            got = specialize(alpha_e, facts)
+            left = [n for n in ast.walk(got) if isinstance(n, (ast.IfExp, ast.BoolOp))]
+            ck.expect(not left or cx(got) == CX(want), f"_check_format_spec: alpha expression not decided under {facts}: `{norm(got)[:100]}`")
+            if not left or cx(got) == CX(want):
+                ck.ob("R2", rets[0], cx(got) == CX(want), f"{why}; found `{norm(got)[:90]}` under {facts}", stmt=f"alpha under {sorted(facts.items())}")
+        for facts, want, why in (({"G10": False}, "{}", "no style part: no style arguments"),):
+            got = specialize(style_e, facts)
+            ck.ob("R2", rets[0], cx(got) == CX(want), f"{why}; found `{norm(got)[:90]}`", stmt="style args without a style part")
+        got = specialize(style_e, {"G10": True})
+        ck.ob("R2", rets[0], "_check_style_format_spec(G10, G10)" in norm(got), f"the style part (group 10) must be handed to _check_style_format_spec; found `{norm(got)[:90]}`", stmt="style part -> _check_style_format_spec")
     # the documented defaults of draw() and _check_formatting agree
     def defaults(fn):
         a = fn.args
@@ -205,10 +242,17 @@ def run(ck, m):
         chk = m.find(rel, f"{q}._check_style_format_spec")
         rend = m.find(rel, f"{q}._render_image")
         ck.need(chk is not None and rend is not None, f"{q}: _check_style_format_spec/_render_image missing")
-        un = next((st for st in chk.body if isinstance(st, ast.Assign) and "_get_style_format_spec" in norm(st.value)), None)
-        ck.need(un is not None and isinstance(un.targets[0], ast.Tuple) and len(un.targets[0].elts) == 2, f"{q}._check_style_format_spec: unpacking not recognised")
-        fields = un.targets[0].elts[1]
-        arity = len(fields.elts) if isinstance(fields, ast.Tuple) else 1
+        un, arity = None, None
+        for st in body_walk(chk):
+            if isinstance(st, ast.Assign) and len(st.targets) == 1 and isinstance(st.targets[0], ast.Tuple):
+                tv = norm(trace(chk, st.value))
+                if tv.endswith("_get_style_format_spec(spec, original)") and len(st.targets[0].elts) == 2 and isinstance(st.targets[0].elts[1], ast.Tuple):
+                    un, arity = st, len(st.targets[0].elts[1].elts)
+                elif tv.endswith("_get_style_format_spec(spec, original)[1]"):
+                    un, arity = st, len(st.targets[0].elts)
+        ck.expect(un is not None, f"{q}._check_style_format_spec: unpacking of the fields not recognised")
+        if un is None:
+            continue
         ck.ob("R3", un, arity == len(pats), f"{q}: {len(pats)} field patterns but {arity} fields unpacked", stmt=f"{q}: patterns == unpack arity")
         sa = next((st for st in cls.body if isinstance(st, ast.Assign) and norm(st.targets[0]) == "_style_args"), None)
         ck.need(sa is not None and isinstance(sa.value, ast.Dict), f"{q}._style_args dict literal not found")
@@ -233,15 +277,19 @@ def run(ck, m):
                 ck.ob("R3", spec, not w, f"{q}: field pattern {p!r} matches inside a sentence of field {q2!r} ({w!r}): search-then-match parsing is ambiguous", stmt=f"{q}: {p!r} inside {q2!r}")
     ck.expect(n_styles >= 2, f"expected >= 2 styles with _FORMAT_SPEC, found {n_styles}")
     gsf = m.get(CM, "BaseImage._get_style_format_spec")
-    loops = [s for s in gsf.body if isinstance(s, ast.For) and norm(s.iter) == "patterns"]
-    ck.need(len(loops) == 2, "_get_style_format_spec: the two loops over `patterns` not found")
-    c1 = [c for c in walk_local(loops[0]) if isinstance(c, ast.Call) and isinstance(c.func, ast.Attribute) and norm(c.func.value) == "pattern"]
-    c2 = [c for c in walk_local(loops[1]) if isinstance(c, ast.Call) and isinstance(c.func, ast.Attribute) and norm(c.func.value) == "pattern"]
-    ck.ob("R3", loops[1], len(c2) == 1 and c2[0].func.attr == "match" and any(k.arg == "pos" and norm(k.value) == "end" for k in c2[0].keywords),
+    itv = find_stmts("$$it = iter(cls._FORMAT_SPEC)", gsf.body)
+    ck.need(len(itv) == 1, "_get_style_format_spec: `<it> = iter(cls._FORMAT_SPEC)` not found")
+    itn = norm(itv[0][1]["it"])
+    loops = [s for s in gsf.body if isinstance(s, ast.For) and norm(s.iter) == itn]
+    ck.need(len(loops) == 2, f"_get_style_format_spec: the two loops over `{itn}` not found")
+    pv1, pv2 = norm(loops[0].target), norm(loops[1].target)
+    c1 = [c for c in walk_local(loops[0]) if isinstance(c, ast.Call) and isinstance(c.func, ast.Attribute) and norm(c.func.value) == pv1 and c.func.attr in ("search", "match", "fullmatch", "finditer", "findall")]
+    c2 = [c for c in walk_local(loops[1]) if isinstance(c, ast.Call) and isinstance(c.func, ast.Attribute) and norm(c.func.value) == pv2 and c.func.attr in ("search", "match", "fullmatch", "finditer", "findall")]
+    endv = [norm(trace(gsf, k.value, keep=("end",))) for c in c2 for k in c.keywords if k.arg == "pos"]
+    ck.ob("R3", loops[1], len(c2) == 1 and c2[0].func.attr == "match" and norm(c2[0].args[0]) == "spec" and endv == ["end"],
           "fields after the first matched one must be anchored with pattern.match(spec, pos=end); search() would skip junk between fields",
           stmt="_get_style_format_spec: subsequent fields anchored at end")
-    ck.ob("R3", loops[0], len(c1) == 1 and c1[0].func.attr == "search" and norm(c1[0]) == "pattern.search(spec)", "first field located with pattern.search(spec)", stmt="_get_style_format_spec: first field search")
-    from tiv.sem import expand
+    ck.ob("R3", loops[0], len(c1) == 1 and c1[0].func.attr == "search" and [norm(a_) for a_ in c1[0].args] == ["spec"] and not c1[0].keywords, "first field located with pattern.search(spec)", stmt="_get_style_format_spec: first field search")
     rej = [r for r in body_walk(gsf) if isinstance(r, ast.Raise) and r.exc is not None and "StyleError" in norm(r.exc)
            and any(b_ and norm(expand(gsf, t)) == "spec[end:]" for t, b_ in guards(r)) and r.lineno > loops[1].end_lineno]
     ck.ob("R3", gsf, bool(rej), "whatever follows the last matched field (`spec[end:]`) must be rejected with StyleError", stmt="_get_style_format_spec: remainder rejected")
